@@ -37,6 +37,16 @@ CLAIMED = {
    note=TRUST + 'User functions are uninterpreted (T, L, Bl), row-wise when vectorised; the prior may clobber the array object it is given; pool.map ordered (C11). "Every evaluated point at '
         'most once" has no proof: bounded runtime check (duplicate rows) only. posterior() is verified as two mechanically extracted blocks.',
    tech='contract-based deductive verification incl. user-function theory and representation invariant, z3', ref='7 C03'),
+ 'C09': dict(
+   text='Deductive proof by symbolic execution of the real write followed by the real read on an HDF5 group model, per class: UnitCube, Ellipsoid, PhaseShift, '
+        'UnitCubeEllipsoidMixture (all three cube/ellipsoid shapes) and Union (restricted to the unit cube or not; any number of members, any split/trim/sampling state, members abstract): '
+        'read terminates normally, every field the bound\'s behaviour depends on is defined and equal to the original, every generator reference is the one handed to read; no HDF5 name is '
+        'created twice or read without having been written; Union.update followed by a read is equivalent to a full write whenever the union changed only through sample() '
+        '(tree equality of update(write(u0),u1) and write(u1)).',
+   note=TRUST + 'h5py modelled as a finite map with exact storage and closed world. Member bounds of a Union are abstract with the round-trip axiom UNTREE(TREE(m)) = m (proved by the '
+        'member classes\' own units). NeuralBound / NautilusBound / NeuralNetworkEmulator round trips are not proved here: bounded runtime round-trip check (check_c09.py) and the '
+        'suite\'s test_neural_io. `block` is not restored by Union.read (only split() reads it): recorded observation.',
+   tech='contract-based deductive verification: symbolic execution of write;read composition over an HDF5 map theory, z3', ref='7 C09'),
  'C10': dict(
    text='Deductive proof on the real AST of Sampler.sample_shell / add_samples / run: every batch has exactly n_batch rows (loop exit + invariant), every row handed to '
         'evaluate_likelihood lies in the unit cube (call precondition discharged at the call site), the counter grows by exactly n_batch per loop iteration and each '
